@@ -311,7 +311,9 @@ class SymName:
         return True
 
     def __hash__(self):
-        raise Unsupported('symbolic name is unhashable')
+        # every symbolic name hashes alike: dict / set lookups then fall back
+        # to ==, i.e. to a z3-decided fork (a collision is always sound)
+        return 0
 
     def __len__(self):
         return 1
